@@ -499,14 +499,14 @@ func main() {
 		for _, ops := range corpusChan() {
 			cases = append(cases, Case{Kind: "chan", Fresh: true, Ops: ops})
 		}
-		nFresh, nMal := a.Pick(220, 3000), a.Pick(90, 1000)
+		nFresh, nMal := a.Pick(300, 3000), a.Pick(120, 1000)
 		for i := 0; i < nFresh; i++ {
 			cases = append(cases, genChan(rng.Fork(), true))
 		}
 		for i := 0; i < nMal; i++ {
 			cases = append(cases, genChan(rng.Fork(), false))
 		}
-		nFaults, nAPI := a.Pick(14, 80), a.Pick(12, 80)
+		nFaults, nAPI := a.Pick(30, 200), a.Pick(30, 200)
 		for i := 0; i < nFaults; i++ {
 			cases = append(cases, Case{Kind: "faults", Scen: genFaults(rng.Fork(), i)})
 		}
